@@ -72,6 +72,10 @@ DESIGNED = {
     "ev_slen_own": ("eval", ["Value 0"], []),
     "ev_slen_native": ("eval", ["Value 0"], []),
     "ev_slen_finally": ("eval", ["Value 0"], []),
+    "ev_slen_eval_throw": ("eval", ["Value 0"], []),
+    "ev_slen_eval_edi": ("eval", ["Value 0"], []),
+    "ev_eval_limit": ("eval", ["Limit recursion"], []),
+    "ev_eval_throw": ("eval", ["Throw TypeError: t1"], []),
     "ev_class_caught": ("eval", ['Value "kc1"'], []),
     "ev_decl_a": ("eval", ["Value 1"], []),
     "ev_decl_b": ("eval", ["Value 2"], []),
